@@ -91,6 +91,7 @@ func (vc *VC) call(fr *Frame, st *State, instr *ssa.Call, c *ssa.CallCommon) {
 	}
 	sig := c.Signature()
 	pos := c.Pos()
+	vc.callAsserts(fr, st, c, args, pos)
 	// builtins
 	if b, ok := c.Value.(*ssa.Builtin); ok {
 		vc.builtin(fr, st, instr, c, b, args)
@@ -728,8 +729,10 @@ func (vc *VC) nativeModel(fr *Frame, st *State, instr *ssa.Call, c *ssa.CallComm
 		}
 		return false
 	case name == "(*sync.Cond).Wait":
-		// releases the lock: everything shared may change
+		// releases the lock: everything shared may change, constrained only by the stated rely
+		before := st.clone()
 		vc.havocAll(st, fr.allLocalRoots())
+		vc.assumeRelies(st, before)
 		vc.setResults(fr, instr, nil)
 		return true
 	}
@@ -754,4 +757,66 @@ func matchAny(pats []string, key string) bool {
 		}
 	}
 	return false
+}
+
+// assumeRelies assumes the top-level contract's rely clauses across an interference point:
+// `old(e)` refers to the state before other goroutines ran.
+func (vc *VC) assumeRelies(st, before *State) {
+	con := vc.top.con
+	if con == nil {
+		return
+	}
+	for _, cl := range con.Relies {
+		env := vc.newEnv(vc.top, st, before)
+		g := vc.specBool(env, cl)
+		vc.q.Assert(Implies(st.reach, g))
+		vc.assumed["rely (assumed of other goroutines across a blocking point): "+cl.Text] = true
+	}
+}
+
+// callAsserts checks the caller's `callsite <callee> asserts ...` clauses for this call.
+func (vc *VC) callAsserts(fr *Frame, st *State, c *ssa.CallCommon, args []Term, pos token.Pos) {
+	if fr.con == nil || len(fr.con.CallAsserts) == 0 {
+		return
+	}
+	var name string
+	var params []*types.Var
+	var recv *types.Var
+	if c.IsInvoke() {
+		name = c.Method.Name()
+	} else if f := c.StaticCallee(); f != nil {
+		name = f.Name()
+		recv = f.Signature.Recv()
+	} else {
+		return
+	}
+	sig := c.Signature()
+	for i := 0; i < sig.Params().Len(); i++ {
+		params = append(params, sig.Params().At(i))
+	}
+	for _, ca := range fr.con.CallAsserts {
+		if ca.Callee != name {
+			continue
+		}
+		env := vc.newEnv(fr, st, fr.entry)
+		env.at = fr.curBlock
+		off := 0
+		if recv != nil && !c.IsInvoke() {
+			env.names["recv"] = Bound{args[0], recv.Type()}
+			off = 1
+		}
+		for i, p := range params {
+			if i+off >= len(args) {
+				break
+			}
+			if p.Name() != "" && p.Name() != "_" {
+				if _, shadow := env.names[p.Name()]; !shadow {
+					env.names[p.Name()] = Bound{args[i+off], p.Type()}
+				}
+			}
+			env.names[fmt.Sprintf("arg%d", i)] = Bound{args[i+off], p.Type()}
+		}
+		g := vc.specBool(env, ca.Clause)
+		vc.addObl(fr, st, "callsite", name+"/"+ca.Clause.Label, g, ca.Clause, pos)
+	}
 }
